@@ -196,6 +196,9 @@ def r5_reporting(chk: Check):
     for n, c in waits:
         gs = [(src(t.ast), pol) for t, pol in ge.guards(n) if t.kind == "test"]
         chk.require(("exc_type", False) in gs, chk.fkey(ex, "waits iff no exception"), f"__exit__ waits under {gs}", chk.loc(ex.module, c))
+        # ... and under no other condition: wait() is where a failed job is turned into FailedExperiment, also when everything has already ended
+        extra = [x for x in gs if "exc_type" not in x[0] and "exc_value" not in x[0]]
+        chk.require(not extra, chk.fkey(ex, "always waits when no exception"), f"__exit__ skips wait() under {extra}: a failure of a job that ended before the block is left is never reported", chk.loc(ex.module, c))
 
 
 def r6_others_complete(chk: Check):
@@ -256,6 +259,14 @@ def r9_earlier_success_survives(chk: Check):
                     "a job that succeeded in an earlier run is reported failed, and its own dependents are cancelled", loc)
 
 
+def r10_failed_start_gives_back(chk: Check):
+    """`every job that does not depend on it still runs to completion`: a start that fails gives back what it locked (= C09.R1), or jobs that only
+    share a token with the failed one wait for ever"""
+    from . import c09
+
+    c09.r1_pairing(chk)
+
+
 RULES = [
     ("R1", "a dependency on a job is FAIL exactly when the upstream job is in ERROR (= C04.R3)", c04.r3_status_mapping),
     ("R2", "cancellation block: FAIL and not finished => ERROR + failure_status DEPENDENCY + wake-up; FAIL on a finished job writes nothing; only fields of self are written", r2_cancellation),
@@ -264,6 +275,7 @@ RULES = [
     ("R5", "reporting: failedJobs records exactly the jobs not DONE; wait() raises iff failedJobs; __exit__ waits iff no exception escaped", r5_reporting),
     ("R8", "a dependency that already failed when the dependent is submitted cancels it too: every dependency is registered, counted and checked at submission (= C04.R4)", c04.r4_registration_order),
     ("R9", "an earlier success survives: after dependency registration every path to the start loop consults the success marker unconditionally (not only when the state is still open) and stores DONE", r9_earlier_success_survives),
+    ("R10", "a failed start gives back every lock it took (= C09.R1): independent jobs sharing a token with the failed job still run", r10_failed_start_gives_back),
     ("R7", "a job is DONE only if its process exited with code 0 or its success marker exists (= C06.R2): a killed job is never reported as a success to its dependents or to the experiment", r7_done_is_truthful),
     ("R6", "jobs that do not depend on a failure run to completion: the experiment waits for every registered job (counter pairing, = C06.R3)", r6_others_complete),
 ]
